@@ -496,11 +496,10 @@ class DynGraph(nx.Graph):
             if u is None:
                 return int(self.size(t))
             elif u is not None and v is not None:
-                if v in self._adj[u]:
-                    if self.__presence_test(u, v, t):
-                        return 1
-                    else:
-                        return 0
+                if v in self._adj[u] and self.__presence_test(u, v, t):
+                    return 1
+                else:
+                    return 0
 
     def has_interaction(self, u, v, t=None):
         """Return True if the interaction (u,v) is in the graph at time t.
